@@ -907,6 +907,13 @@ pub fn gen_plan(id: &str, rng: &mut Rng) -> Result<(gen::GenModule, Vec<Inj>, bo
                 }
                 plan.push(Inj { func: nimp + f as u32, at, mode, path, uid, n_ops: 1, leading_drop: false, probe: Probe::Marker });
                 uid += 1;
+                // 1 in 4: a function-level probe on the same function as well (entry / exit code must survive whatever the other injection does)
+                // (not next to an empty block-alt, whose reflection is judged by comparing the whole body with the removal spec)
+                if rng.chance(1, 4) && !matches!(mode, Mode::FuncEntry | Mode::FuncExit | Mode::EmptyBlockAlt) {
+                    let fmode = if rng.bool() { Mode::FuncEntry } else { Mode::FuncExit };
+                    plan.push(Inj { func: nimp + f as u32, at: 0, mode: fmode, path: Path::Modifier, uid, n_ops: 1, leading_drop: false, probe: Probe::Marker });
+                    uid += 1;
+                }
                 // 1 in 3: an ordinary before / after injection issued later in the same function (it must not make the special one disappear)
                 if rng.chance(1, 3) && !matches!(mode, Mode::FuncEntry | Mode::FuncExit) {
                     let pat = rng.below(func.ops.len());
